@@ -807,10 +807,27 @@ METHODS = {
     "exp": unary("exp"), "log": unary("log"), "conj": unary("conj"), "contiguous": lambda I, x: x, "clone": lambda I, x: x,
     "detach": lambda I, x: x, "cpu": lambda I, x: x, "float": lambda I, x: Tensor(x.shape, x.elem, "float", x.comps),
     "numel": lambda I, x: zprod(x.shape),
+    "copy_": lambda I, x, src: _copy_into(I, x, src),
     "new_zeros": lambda I, x, *shape, **k: Tensor(list(shape[0]) if len(shape) == 1 and isinstance(shape[0], (list, tuple)) else list(shape),
                                                   lambda idx: z3.RealVal(0), x.dtype),
     "unbind": lambda I, x, dim=0: [index(I, x, tuple([slice(None)] * ndim(dim, x.rank, I) + [j])) for j in range(_concrete(x.shape[ndim(dim, x.rank, I)]))],
 }
+
+
+def _copy_into(I, x, src):
+    """Tensor.copy_(src) (assumed contract): src must broadcast to the shape of the target; the write is RECORDED (target,
+    broadcast source) in I.writes, the abstract tensors themselves are immutable values"""
+    src = as_tensor(src)
+    if src.rank > x.rank:
+        I.raise_("RuntimeError", "copy_: source has more dimensions than the target")
+    off = x.rank - src.rank
+    for j in range(src.rank):
+        s = src.shape[j]
+        if not (isinstance(s, int) and s == 1):
+            I.require("copy_.dims_equal", to_z3(s) == to_z3(x.shape[j + off]))
+    b = Tensor(x.shape, lambda idx: src.elem(bidx(src, idx, x.rank)), x.dtype)
+    I.__dict__.setdefault("writes", []).append((x, b))
+    return x
 
 
 def _to_int(v):
@@ -902,7 +919,29 @@ def install(I):
                 return BoundBuiltin(log_prob)
             raise Unsupported(f"distribution.{attr}")
 
-    ext["torch.distributions.Normal"] = lambda I, a, k: Dist("normal", [k.get("loc", a[0] if a else None), k.get("scale", a[1] if len(a) > 1 else None)])
+    class Dirichlet:
+        """torch.distributions.Dirichlet(concentration).sample(size): a tensor of shape (*size, len(concentration)) whose entries
+        along the LAST axis form a point of the simplex (assumed contract); the sample is a fresh uninterpreted leaf"""
+
+        def __init__(self, conc):
+            self.conc = conc
+
+        def __vf_getattr__(self, I_, attr):
+            if attr == "sample":
+                def sample(size=()):
+                    dims = list(B.iterate(I, size)) + [as_tensor(self.conc).shape[0]]
+                    t = leaf(I, "dirichlet_sample", dims)
+                    I.__dict__.setdefault("dirichlet_samples", []).append(t)
+                    return t
+                return BoundBuiltin(sample)
+            raise Unsupported(f"Dirichlet.{attr}")
+
+    ext["torch.distributions.Dirichlet"] = lambda I, a, k: Dirichlet(a[0])
+    ext["torch.Size"] = lambda I, a, k: tuple(B.iterate(I, a[0]))
+    ext["torch.full"] = lambda I, a, k: Tensor(list(B.iterate(I, a[0])), lambda idx, v=k.get("fill_value", a[1] if len(a) > 1 else 0): _real(v), "float")
+    ext["torch.Tensor"] = lambda I, a, k: Tensor([B.seq_len(a[0])], lambda idx, s=a[0]: _real(B.as_symseq(s).elem(lin(idx[0])) if not isinstance(s, SymSeq) else s.elem(lin(idx[0]))), "float")
+    ext["torch.from_numpy"] = lambda I, a, k: a[0] if isinstance(a[0], Tensor) else Tensor([len(a[0].values)], lambda idx, s=a[0]: _real(B.as_symseq(s.values).elem(lin(idx[0]))), "float")
+    ext["torch.distributions.Normal"] =lambda I, a, k: Dist("normal", [k.get("loc", a[0] if a else None), k.get("scale", a[1] if len(a) > 1 else None)])
     ext["torch.distributions.Binomial"] = lambda I, a, k: Dist("binomial_" + ("probs" if "probs" in k else "logits"),
                                                                 [a[0] if a else k.get("total_count"), k.get("probs", k.get("logits"))])
     orig_call = I.call
